@@ -16,6 +16,7 @@ Steps(c) == CASE c = "push" -> <<"PUSHNAT">>
               [] c = "newbm" -> <<"EMPTYBM">>
               [] c = "newbm2" -> <<"EMPTYBM", "PUSHOPT", "PUSHSTR", "UPDATE">>
               [] c = "upd" -> <<"PUSHOPT", "PUSHSTR", "UPDATE">>
+              [] c = "del" -> <<"PUSHNONE", "PUSHSTR", "UPDATE">>     \* remove the key again: leaves a pending removal in the big_map (contents are compared by the harness)
               [] c = "begin" -> <<"BEGIN">>
               [] c = "commit" -> <<"CDR", "PUSHOPT", "PUSHSTR", "UPDATE", "NILOP", "PAIR", "COMMIT">>
               [] c = "drop" -> <<"DROP">>
@@ -23,7 +24,7 @@ Steps(c) == CASE c = "push" -> <<"PUSHNAT">>
               [] c = "storage" -> <<"STORAGE">>
               [] c = "parambm" -> <<"PARAMBM">>            \* declare  parameter (big_map string nat)
               [] c = "beginptr" -> <<"BEGINPTR">>          \* BEGIN 5 {} : the parameter is the on-chain big_map 5, which gets registered in the context
-Cells == {"push", "newbm", "newbm2", "upd", "begin", "commit", "drop", "dropall", "storage", "parambm", "beginptr"}
+Cells == {"push", "newbm", "newbm2", "upd", "del", "begin", "commit", "drop", "dropall", "storage", "parambm", "beginptr"}
 
 VARIABLES stack, tmp, alloc, commits, ptype, regs, hist, fails
 vars == <<stack, tmp, alloc, commits, ptype, regs, hist, fails>>
@@ -37,6 +38,7 @@ StepOn(st, p) ==
   LET s == st[1]  t == st[2]  a == st[3]  cm == st[4]  pt == st[5]  rg == st[6] IN
   CASE p = "PUSHNAT" -> <<<< <<"nat">> >> \o s, t, a, cm, pt, rg>>
     [] p = "PUSHOPT" -> <<<< <<"opt">> >> \o s, t, a, cm, pt, rg>>
+    [] p = "PUSHNONE" -> <<<< <<"opt">> >> \o s, t, a, cm, pt, rg>>
     [] p = "PUSHSTR" -> <<<< <<"str">> >> \o s, t, a, cm, pt, rg>>
     [] p = "EMPTYBM" -> <<<< <<"bm", -(t + 1)>> >> \o s, t + 1, a, cm, pt, rg>>
     [] p = "UPDATE" -> IF Len(s) >= 3 /\ s[1] = <<"str">> /\ s[2] = <<"opt">> /\ s[3][1] = "bm" THEN <<SubSeq(s, 3, Len(s)), t, a, cm, pt, rg>> ELSE Stuck
